@@ -63,6 +63,12 @@ def binop(I, opname: str, a, b, node):
         return None
     Aa, Ma, Ab, Mb = th(wa[0]), th(wa[1]), th(wb[0]), th(wb[1])
     if opname in ("add", "sub"):
+        # the constant 0 has every multiplicative response (0 * exp(M d) = 0)
+        if Ma != Mb and not Aa and not Ab:
+            if wa == ZERO and a.const == 0:
+                Ma = Mb
+            elif wb == ZERO and b.const == 0:
+                Mb = Ma
         if Ma != Mb:
             diag(I, node, f"{opname} of values that respond differently to a shift of all mu (multiplicative exponents {show(Ma, 80)} vs {show(Mb, 80)})", False)
             return None
